@@ -28,9 +28,10 @@ import (
 var fxMode bool
 
 type psig struct {
-	params  []gty
-	results []gty
-	fx      bool // floats are FX trees in this function (utils.go) rather than bit patterns (floats.go)
+	recvFields []string // fields of the receiver the translated method takes as leading parameters
+	params     []gty
+	results    []gty
+	fx         bool // floats are FX trees in this function (utils.go) rather than bit patterns (floats.go)
 }
 
 type pctx struct {
@@ -40,18 +41,56 @@ type pctx struct {
 }
 
 func (t *trans) isStreamCall(c *ast.CallExpr) bool {
+	if t.stream == "" {
+		return false
+	}
 	if sel, ok := c.Fun.(*ast.SelectorExpr); ok {
-		if id, ok := sel.X.(*ast.Ident); ok && id.Name == t.stream {
+		if exprText(t.p.fset, sel.X) == t.stream {
 			return true
 		}
 	}
 	if len(c.Args) > 0 {
-		if id, ok := c.Args[0].(*ast.Ident); ok && id.Name == t.stream && t.stream != "" {
+		if exprText(t.p.fset, c.Args[0]) == t.stream {
 			return true
 		}
 	}
+	if _, ok := t.psigs[exprText(t.p.fset, c.Fun)]; ok {
+		for _, a := range c.Args {
+			if x := exprText(t.p.fset, a); x == t.stream || (t.streamOwner != "" && x == t.streamOwner) {
+				return true
+			}
+		}
+	}
+	// gen(t): a function parameter that draws from the stream of the T it is given
+	if id, ok := c.Fun.(*ast.Ident); ok {
+		if _, isCb := t.callbacks[id.Name]; isCb {
+			return true
+		}
+	}
+	// g.elem.value(t): a generator held in a field of the receiver
+	if _, ok := t.callbackOf(c); ok {
+		return true
+	}
 	return false
 }
+
+// callbackOf: the key of the sub-generator a call draws from (`gen(t)` or `g.field.value(t)`)
+func (t *trans) callbackOf(c *ast.CallExpr) (string, bool) {
+	if id, ok := c.Fun.(*ast.Ident); ok {
+		if _, isCb := t.callbacks[id.Name]; isCb {
+			return id.Name, true
+		}
+	}
+	if sel, ok := c.Fun.(*ast.SelectorExpr); ok && sel.Sel.Name == "value" {
+		key := exprText(t.p.fset, sel.X)
+		if _, isCb := t.callbacks[key]; isCb {
+			return key, true
+		}
+	}
+	return "", false
+}
+
+func cbName(key string) string { return strings.ReplaceAll(key, ".", "_") }
 
 // effectful calls inside e, in evaluation order (nested ones are rejected)
 func (t *trans) streamCalls(e ast.Node) []*ast.CallExpr {
@@ -81,8 +120,15 @@ func (t *trans) fresh(base string) string {
 
 // bindCall emits the call c with its results bound to names (types are returned), followed by cont()
 func (t *trans) bindCall(c *ast.CallExpr, names []string, cont func(tys []gty) string) string {
+	if key, isCb := t.callbackOf(c); isCb {
+		res := t.callbacks[key]
+		if len(names) != len(res) {
+			panic("translate: wrong number of results bound for the sub-generator " + key)
+		}
+		return fmt.Sprintf("%s fun %s =>\n  %s", cbName(key), strings.Join(names, " "), cont(res))
+	}
 	if sel, ok := c.Fun.(*ast.SelectorExpr); ok {
-		if id, ok := sel.X.(*ast.Ident); ok && id.Name == t.stream {
+		if exprText(t.p.fset, sel.X) == t.stream {
 			switch sel.Sel.Name {
 			case "drawBits":
 				n, nty := t.expr(c.Args[0], "i64")
@@ -102,11 +148,24 @@ func (t *trans) bindCall(c *ast.CallExpr, names []string, cont func(tys []gty) s
 	if !ok {
 		panic("translate: call of an untranslated stream function " + fn)
 	}
-	if len(c.Args)-1 != len(sg.params) {
+	var callArgs []ast.Expr
+	skipped := false
+	for _, a := range c.Args {
+		if x := exprText(t.p.fset, a); !skipped && (x == t.stream || (t.streamOwner != "" && x == t.streamOwner)) {
+			skipped = true
+			continue
+		}
+		callArgs = append(callArgs, a)
+	}
+	if len(callArgs) != len(sg.params) {
 		panic("translate: wrong number of arguments for " + fn)
 	}
 	var args []string
-	for i, a := range c.Args[1:] {
+	for i, a := range callArgs {
+		if sg.params[i] == "callback" {
+			args = append(args, t.callbackArg(a))
+			continue
+		}
 		s, ty := t.expr(a, sg.params[i])
 		if ty != sg.params[i] {
 			panic(fmt.Sprintf("translate: argument %d of %s has type %s, want %s", i, fn, ty, sg.params[i]))
@@ -125,6 +184,30 @@ func (t *trans) bindCall(c *ast.CallExpr, names []string, cont func(tys []gty) s
 	return fmt.Sprintf("%s fe %s fuel fun %s =>\n  %s", fn, strings.Join(args, " "), strings.Join(names, " "), cont(sg.results))
 }
 
+// callbackArg: a sub-generator handed to a translated function — a function parameter of the caller, a method
+// value of the receiver that is translated itself (`g.maybeValue`), or one that is not (then a parameter)
+func (t *trans) callbackArg(a ast.Expr) string {
+	key := exprText(t.p.fset, a)
+	if _, ok := t.callbacks[key]; ok {
+		return cbName(key)
+	}
+	if sel, ok := a.(*ast.SelectorExpr); ok {
+		if id, ok := sel.X.(*ast.Ident); ok && id.Name == t.recvName {
+			if sg, ok := t.psigs[t.recvType+"."+sel.Sel.Name]; ok {
+				if len(sg.params) != 0 {
+					panic("translate: method value with parameters: " + key)
+				}
+				var fs []string
+				for _, f := range sg.recvFields {
+					fs = append(fs, cbName(t.recvName+"."+f))
+				}
+				return fmt.Sprintf("(%s_%s fe %s fuel)", t.recvType, sel.Sel.Name, strings.Join(fs, " "))
+			}
+		}
+	}
+	panic("translate: unsupported sub-generator argument " + key)
+}
+
 // hoist binds every stream call inside the expressions to a fresh name, then continues
 func (t *trans) hoist(es []ast.Expr, cont func() string) string {
 	var calls []*ast.CallExpr
@@ -140,6 +223,9 @@ func (t *trans) hoist(es []ast.Expr, cont func() string) string {
 		n := 1
 		if sg, ok := t.psigs[exprText(t.p.fset, c.Fun)]; ok {
 			n = len(sg.results)
+		}
+		if key, ok := t.callbackOf(c); ok {
+			n = len(t.callbacks[key])
 		}
 		if n != 1 {
 			panic("translate: multi-value stream call inside an expression: " + exprText(t.p.fset, c))
@@ -166,6 +252,10 @@ func assertMsg(format string) string {
 }
 
 func (t *trans) zero(ty gty) string {
+	if strings.HasPrefix(string(ty), "tp:") {
+		t.needDefault[string(ty)[3:]] = true
+		return "default"
+	}
 	switch ty {
 	case "bool":
 		return "false"
@@ -322,6 +412,11 @@ func (t *trans) pblock(list []ast.Stmt, c pctx) string {
 			case "assert":
 				cond, _ := t.expr(call.Args[0], "bool")
 				return fmt.Sprintf("if %s then\n    %s\n  else\n    .throw Go.assertFailed", cond, indent(rest()))
+			case "panic":
+				// panic(invalidData(fmt.Sprintf("… %d …", n)))
+				if inner, ok := call.Args[0].(*ast.CallExpr); ok && exprText(t.p.fset, inner.Fun) == "invalidData" {
+					return ".throw (.invalid " + t.sprintf(inner.Args[0]) + ")"
+				}
 			case "assertf":
 				if exprText(t.p.fset, call.Args[0]) != "false" {
 					panic("translate: assertf with a condition other than `false`")
@@ -332,6 +427,9 @@ func (t *trans) pblock(list []ast.Stmt, c pctx) string {
 	case *ast.SwitchStmt:
 		return t.auxSwitch(s, rest)
 	case *ast.ForStmt:
+		if s.Init != nil && s.Cond != nil && s.Post != nil && len(t.streamCalls(s.Body)) > 0 {
+			return t.countingStream(s, list[1:], c)
+		}
 		if s.Init != nil && s.Cond != nil && s.Post != nil {
 			return t.auxFor(s, rest)
 		}
@@ -551,6 +649,125 @@ func (t *trans) endless(loop *ast.ForStmt, c pctx) string {
 	return call
 }
 
+// sprintf turns fmt.Sprintf("a %d b", n) (or a string literal) into a Lean string expression
+func (t *trans) sprintf(e ast.Expr) string {
+	if lit, ok := e.(*ast.BasicLit); ok && lit.Kind == token.STRING {
+		return lit.Value
+	}
+	call, ok := e.(*ast.CallExpr)
+	if !ok || exprText(t.p.fset, call.Fun) != "fmt.Sprintf" {
+		panic("translate: unsupported message " + exprText(t.p.fset, e))
+	}
+	format, err := strconv.Unquote(exprText(t.p.fset, call.Args[0]))
+	if err != nil {
+		panic("translate: Sprintf format is not a literal")
+	}
+	parts := strings.Split(format, "%d")
+	if len(parts) != len(call.Args) || strings.Contains(format, "%v") || strings.Contains(format, "%s") {
+		panic("translate: only %d verbs are supported in messages: " + format)
+	}
+	out := strconv.Quote(parts[0])
+	for i, a := range call.Args[1:] {
+		s, ty := t.expr(a, "i64")
+		if ty != "i64" {
+			panic("translate: %d of a non-int")
+		}
+		out += fmt.Sprintf(" ++ toString (%s).toInt ++ %s", s, strconv.Quote(parts[i+1]))
+	}
+	return "(" + out + ")"
+}
+
+// countingStream: `for i := a; cond; i++ { … stream calls, returns … }` followed by the rest of the block:
+// a recursive definition over the loop variable; when the condition fails the rest of the block runs
+func (t *trans) countingStream(loop *ast.ForStmt, after []ast.Stmt, c pctx) string {
+	if c.ret == nil {
+		panic("translate: loop inside a group body")
+	}
+	init, ok := loop.Init.(*ast.AssignStmt)
+	if !ok || len(init.Lhs) != 1 || init.Tok != token.DEFINE {
+		panic("translate: unsupported loop initialiser")
+	}
+	inc, ok := loop.Post.(*ast.IncDecStmt)
+	if !ok || inc.Tok != token.INC || exprText(t.p.fset, inc.X) != exprText(t.p.fset, init.Lhs[0]) {
+		panic("translate: unsupported loop post statement")
+	}
+	v := init.Lhs[0].(*ast.Ident).Name
+	initS, ity := t.expr(init.Rhs[0], "i64")
+	if ity != "i64" {
+		panic("translate: counting loop with stream calls over a non-int variable")
+	}
+	t.env[v] = "i64"
+	t.loopN++
+	name := fmt.Sprintf("%s_loop%d", t.self, t.loopN)
+	free := map[string]bool{}
+	mark := func(n ast.Node) {
+		ast.Inspect(n, func(n ast.Node) bool {
+			if id, ok := n.(*ast.Ident); ok {
+				if _, isVar := t.env[id.Name]; isVar {
+					free[id.Name] = true
+				}
+			}
+			return true
+		})
+	}
+	mark(loop.Cond)
+	mark(loop.Body)
+	for _, st := range after {
+		mark(st)
+	}
+	delete(free, v)
+	var fv []string
+	for x := range free {
+		fv = append(fv, x)
+	}
+	sort.Strings(fv)
+	var params, args []string
+	for _, x := range fv {
+		params = append(params, fmt.Sprintf("(%s : %s)", t.name(x), leanTy(t.env[x])))
+		args = append(args, t.name(x))
+	}
+	var cbParams, cbArgs []string
+	var cbs []string
+	for cb := range t.callbacks {
+		cbs = append(cbs, cb)
+	}
+	sort.Strings(cbs)
+	for _, cb := range cbs {
+		var resTy []string
+		for _, r := range t.callbacks[cb] {
+			resTy = append(resTy, leanTy(r))
+		}
+		cbParams = append(cbParams, fmt.Sprintf("(%s : (%s → Prog) → Prog)", cbName(cb), strings.Join(resTy, " → ")))
+		cbArgs = append(cbArgs, cbName(cb))
+	}
+	var tps []string
+	for tp := range typeParams {
+		tps = append(tps, fmt.Sprintf("{%s : Type} [Go.Enc %s] [Inhabited %s]", tp, tp, tp))
+	}
+	sort.Strings(tps)
+	saved := t.snapshot()
+	cond, _ := t.expr(loop.Cond, "bool")
+	next := fmt.Sprintf("%s fe %s k fuel (%s + (1 : Int64))", name, strings.Join(append(cbArgs, args...), " "), t.name(v))
+	body := t.pblock(loop.Body.List, pctx{c.results, c.ret, func() string { return next }})
+	t.restore(saved)
+	saved = t.snapshot()
+	restS := t.pblock(after, c)
+	t.restore(saved)
+	t.aux = append(t.aux, fmt.Sprintf("/-- the loop of %s (%s); `fuel` bounds the number of iterations -/\ndef %s %s (fe : Go.FEval) %s (k : %s) : Nat → Int64 → Prog\n  | 0, _ => .throw .fuel\n  | fuel+1, %s =>\n    if %s then\n      %s\n    else\n      %s\n",
+		t.self, t.p.fset.Position(loop.Pos()), name, strings.Join(tps, " "), strings.Join(append(cbParams, params...), " "), kType(c.results),
+		t.name(v), cond, indent(indent(body)), indent(indent(restS))))
+	return fmt.Sprintf("%s fe %s k fuel %s", name, strings.Join(append(cbArgs, args...), " "), initS)
+}
+
+func isPtrT(e ast.Expr) bool {
+	st, ok := e.(*ast.StarExpr)
+	if !ok {
+		return false
+	}
+	id, ok := st.X.(*ast.Ident)
+	return ok && id.Name == "T"
+}
+
 func kType(results []gty) string {
 	var parts []string
 	for _, r := range results {
@@ -577,14 +794,153 @@ func (t *trans) progFunction(key string, fx bool) string {
 	t.aux = nil
 	t.hoisted = map[*ast.CallExpr]string{}
 	t.stream = ""
+	t.streamOwner = ""
+	t.recvName, t.recvType = "", ""
+	t.callbacks = map[string][]gty{}
+	typeParams = map[string]bool{}
+	defer func() { typeParams = map[string]bool{} }()
 	var params []string
 	var sg psig
+	var tpOrder []string
+	t.needDefault = map[string]bool{}
+	t.pureFns = map[string]sig{}
+	if d.Type.TypeParams != nil {
+		for _, f := range d.Type.TypeParams.List {
+			for _, n := range f.Names {
+				typeParams[n.Name] = true
+				tpOrder = append(tpOrder, n.Name)
+			}
+		}
+	}
+	if d.Recv != nil {
+		// a method of a generic generator type: the type parameters come from the receiver, the fields the body
+		// uses become parameters — a *Generator[X] field is a sub-generator, a func field a pure function
+		rt := d.Recv.List[0].Type
+		if st, ok := rt.(*ast.StarExpr); ok {
+			rt = st.X
+		}
+		switch x := rt.(type) {
+		case *ast.IndexExpr:
+			tpOrder = append(tpOrder, x.Index.(*ast.Ident).Name)
+		case *ast.IndexListExpr:
+			for _, ix := range x.Indices {
+				tpOrder = append(tpOrder, ix.(*ast.Ident).Name)
+			}
+		}
+		for _, tp := range tpOrder {
+			typeParams[tp] = true
+		}
+		recv := recvName(d)
+		t.recvName, t.recvType = recv, recvType(d)
+		st := t.p.structs[recvType(d)]
+		if st == nil {
+			panic("translate: no struct for the receiver of " + key)
+		}
+		used := map[string]bool{}
+		var methodVals []string
+		ast.Inspect(d.Body, func(n ast.Node) bool {
+			if sel, ok := n.(*ast.SelectorExpr); ok {
+				if id, ok := sel.X.(*ast.Ident); ok && id.Name == recv {
+					if msg, ok := t.psigs[t.recvType+"."+sel.Sel.Name]; ok {
+						// a translated method of the same receiver: its fields are needed here too
+						for _, f := range msg.recvFields {
+							used[f] = true
+						}
+					} else if md, ok := t.p.funcs[t.recvType+"."+sel.Sel.Name]; ok {
+						_ = md
+						methodVals = append(methodVals, sel.Sel.Name)
+					} else {
+						used[sel.Sel.Name] = true
+					}
+				}
+			}
+			return true
+		})
+		for _, mname := range methodVals {
+			// an untranslated method handed on as a sub-generator: a parameter with the method's results
+			md := t.p.funcs[t.recvType+"."+mname]
+			var res []gty
+			var resTy []string
+			for _, r := range md.Type.Results.List {
+				res = append(res, goTy(r.Type))
+				resTy = append(resTy, leanTy(goTy(r.Type)))
+			}
+			fkey := recv + "." + mname
+			t.callbacks[fkey] = res
+			params = append(params, fmt.Sprintf("(%s : (%s → Prog) → Prog)", cbName(fkey), strings.Join(resTy, " → ")))
+			sg.recvFields = append(sg.recvFields, mname)
+		}
+		for _, f := range st.Fields.List {
+			for _, n := range f.Names {
+				if !used[n.Name] {
+					continue
+				}
+				fkey := recv + "." + n.Name
+				sg.recvFields = append(sg.recvFields, n.Name)
+				if se, ok := f.Type.(*ast.StarExpr); ok {
+					if ix, ok := se.X.(*ast.IndexExpr); ok && exprText(t.p.fset, ix.X) == "Generator" {
+						ety := goTy(ix.Index)
+						t.callbacks[fkey] = []gty{ety}
+						params = append(params, fmt.Sprintf("(%s : (%s → Prog) → Prog)", cbName(fkey), leanTy(ety)))
+						continue
+					}
+				}
+				if ft, ok := f.Type.(*ast.FuncType); ok && ft.Results != nil && len(ft.Results.List) == 1 {
+					var fs sig
+					var tys []string
+					for _, pf := range ft.Params.List {
+						k := len(pf.Names)
+						if k == 0 {
+							k = 1
+						}
+						for i := 0; i < k; i++ {
+							fs.params = append(fs.params, goTy(pf.Type))
+							tys = append(tys, leanTy(goTy(pf.Type)))
+						}
+					}
+					fs.results = []gty{goTy(ft.Results.List[0].Type)}
+					tys = append(tys, leanTy(fs.results[0]))
+					t.pureFns[fkey] = fs
+					params = append(params, fmt.Sprintf("(%s : %s)", cbName(fkey), strings.Join(tys, " → ")))
+					continue
+				}
+				panic("translate: unsupported receiver field " + fkey)
+			}
+		}
+	}
 	for i, f := range d.Type.Params.List {
-		if i == 0 {
-			if len(f.Names) != 1 || exprText(t.p.fset, f.Type) != "bitStream" {
-				panic("translate: first parameter of " + key + " is not the bit stream")
+		if exprText(t.p.fset, f.Type) == "bitStream" {
+			if i != 0 || len(f.Names) != 1 {
+				panic("translate: the bit stream is not the first parameter of " + key)
 			}
 			t.stream = f.Names[0].Name
+			continue
+		}
+		if isPtrT(f.Type) {
+			// the stream is reached through the T; nothing else of the T is used by a translated function
+			if t.stream != "" || len(f.Names) != 1 {
+				panic("translate: more than one stream in " + key)
+			}
+			t.stream = f.Names[0].Name + ".s"
+			t.streamOwner = f.Names[0].Name
+			continue
+		}
+		if ft, ok := f.Type.(*ast.FuncType); ok {
+			// gen func(*T) (V, bool): a sub-generator in continuation-passing style
+			if ft.Params == nil || len(ft.Params.List) != 1 || !isPtrT(ft.Params.List[0].Type) {
+				panic("translate: unsupported function parameter in " + key)
+			}
+			var res []gty
+			var resTy []string
+			for _, r := range ft.Results.List {
+				res = append(res, goTy(r.Type))
+				resTy = append(resTy, leanTy(goTy(r.Type)))
+			}
+			for _, n := range f.Names {
+				t.callbacks[n.Name] = res
+				params = append(params, fmt.Sprintf("(%s : (%s → Prog) → Prog)", cbName(n.Name), strings.Join(resTy, " → ")))
+				sg.params = append(sg.params, "callback")
+			}
 			continue
 		}
 		for _, n := range f.Names {
@@ -616,8 +972,14 @@ func (t *trans) progFunction(key string, fx bool) string {
 	if out != "" {
 		out += "\n"
 	}
+	var tpBinders []string
+	for _, tp := range tpOrder {
+		// (Inhabited: `var zero V`)
+		tpBinders = append(tpBinders, fmt.Sprintf("{%s : Type} [Go.Enc %s] [Inhabited %s]", tp, tp, tp))
+	}
+	params = append(tpBinders, params...)
 	out += fmt.Sprintf("/-- %s (%s) -/\ndef %s (fe : Go.FEval) %s (fuel : Nat) (k : %s) : Prog :=\n  %s\n",
-		key, t.p.fset.Position(d.Pos()), key, strings.Join(params, " "), kType(sg.results), body)
+		key, t.p.fset.Position(d.Pos()), strings.ReplaceAll(key, ".", "_"), strings.Join(params, " "), kType(sg.results), body)
 	t.stream = ""
 	return out
 }
